@@ -59,25 +59,27 @@ structure Events where
   fl : List FlEv := []
 
 def parseIo (toks : List String) : Events :=
-  toks.foldl (fun (e : Events) tok =>
+  -- linear: cons in reverse, reverse once (a watchdog case has hundreds of thousands of events)
+  let e := toks.foldl (fun (e : Events) tok =>
     if tok.startsWith "r:" then
       let v := (tok.drop 2).toString
       let ev : RdEv := if v == "b" then .err .wouldBlock else if v == "e" || v == "z" then .eof
         else if v.startsWith "x" then .err (parseKind (v.drop 1).toString) else .data (unhex v)
-      { e with rd := e.rd ++ [ev] }
+      { e with rd := ev :: e.rd }
     else if tok.startsWith "w:" then
       let v := (tok.drop 2).toString
       let a := match v.splitOn "/" with | x :: _ => x | [] => ""
       let ev : WrEv := if a == "b" then .err .wouldBlock
         else if a.startsWith "x" then .err (parseKind (a.drop 1).toString)
         else .accept (a.toNat?.getD 0)
-      { e with wr := e.wr ++ [ev] }
+      { e with wr := ev :: e.wr }
     else if tok.startsWith "f:" then
       let v := (tok.drop 2).toString
       let ev : FlEv := if v == "o" then .ok else if v == "b" then .err .wouldBlock
         else .err (parseKind (v.drop 1).toString)
-      { e with fl := e.fl ++ [ev] }
+      { e with fl := ev :: e.fl }
     else e) {}
+  { rd := e.rd.reverse, wr := e.wr.reverse, fl := e.fl.reverse }
 
 def showCall : Call → String
   | .read (.data bs) => "r:" ++ hex bs
